@@ -36,7 +36,7 @@ def report(ck, results, prop, what):
     for job, b, tcl, fcl in results:
         key = (what, job["N"], job["m"], tuple(job["list"] or []), job["conn"], job["kind"], job["full"], str(job["comps"]), str(job.get("meas")))
         ck.count(key, True)
-        small = {k: job[k] for k in ("N", "m", "list", "conn", "kind", "full", "comps", "meas", "argform") if k in job}
+        small = {k: job[k] for k in ("N", "m", "list", "conn", "kind", "full", "comps", "meas", "argform", "countform") if k in job}
         if b.get("exc"):
             ck.violation(f"{what} {key}", f"{what}: tomography API raises {b['exc']} for {small}", {"job": small})
             continue
@@ -64,7 +64,7 @@ def run(tier):
         ncirc = 2 ** n + 1
         idxs = range(ncirc)          # every circuit of every configuration (744 circuits): all 4^n - 1 (key, mask, sign) triples
         for i in idxs:
-            fjobs.append({"N": n, "m": n, "list": None, "conn": conn, "index": i, "kind": "full", "meas": None, "counts": random_counts(n, rng), "full": True})
+            fjobs.append({"N": n, "m": n, "list": None, "conn": conn, "index": i, "kind": "full", "meas": None, "counts": random_counts(n, rng), "full": True, "countform": ("int", "float", "np")[i % 3]})
     frecs = par.pmap(workers.fitter_counts, fjobs)
     for r in frecs:
         if r["exc"]:
